@@ -113,6 +113,70 @@ theorem size_mismatch_rejected_enc (codec : Codec) (m : Member) (hv : m.valid) (
     parseCast codec (encD4 m ++ junk) = .error .value ∧ parseCast codec (encD5 m ++ junk) = .error .value :=
   ⟨encD4_junk codec m hv junk hj, encD5_junk codec m hv junk hj⟩
 
+/-! ### (L) the field layouts the model reads ARE the layouts regenerated from drxtract/cast/*.py
+
+`Gen.CastLayouts.*` is produced on every run by harness/gen_cast_layouts.py, which walks the Python `ast` of the nine `parse`
+bodies and of the fixed prefixes of the three cast.py functions with a symbolic running index. `layoutOf kinds off` is the
+(offset, width, signed) list of the model's `readFields kinds · off`. A changed offset, width, signedness or read order in the
+source breaks one of these kernel-checked equalities on the next run. The name lists are the Python variable names in the order
+of the pattern variables of the model's readers. -/
+
+open Drx.Gen in
+theorem reader_layouts_generated :
+    shapeOf CastLayouts.image = layoutOf imageKinds 0 ∧
+    shapeOf CastLayouts.imageTail = layoutOf imageTailKinds imageTailOff ∧ CastLayouts.imageTailGuard = imageTailGuard ∧
+    shapeOf CastLayouts.textInput = layoutOf textInputKinds 0 ∧
+    shapeOf CastLayouts.button = layoutOf buttonKinds 0 ∧
+    shapeOf CastLayouts.shape = layoutOf shapeKinds 0 ∧
+    shapeOf CastLayouts.text = layoutOf textKinds 0 ∧
+    shapeOf CastLayouts.transition = layoutOf transitionKinds 0 ∧
+    CastLayouts.sound = [] ∧ CastLayouts.palette = [] ∧ CastLayouts.script = [] := by decide
+
+open Drx.Gen in
+theorem container_layouts_generated :
+    shapeOf CastLayouts.structD4 = layoutOf structD4Kinds 0 ∧
+    shapeOf CastLayouts.structD5 = layoutOf structD5Kinds 0 ∧
+    shapeOf CastLayouts.basicFixed = layoutOf basicKinds 0 := by decide
+
+open Drx.Gen in
+theorem reader_field_order :
+    namesOf CastLayouts.image = ["flags", "bmp_bpp_val", "unknown_11", "h_padding", "w_padding", "bmp_height", "bmp_width", "top", "left",
+                                 "bottom", "right", "locV", "locH"] ∧
+    namesOf CastLayouts.imageTail = ["bitdepth", "palette_id"] ∧
+    namesOf CastLayouts.textInput = ["unknown0", "border", "margin", "boxDropShadow", "boxType", "alignment", "bgcolor_red", "unknown4",
+                                     "bgcolor_green", "unknown5", "bgcolor_blue", "unknown6", "scrollTop", "top", "left", "bottom", "right",
+                                     "pageHeight", "dropShadow", "options", "scrollHeight"] ∧
+    namesOf CastLayouts.button = ["unknown0", "unknown1", "unknown2", "alignment", "bgcolor_red", "unknown4", "bgcolor_green", "unknown5",
+                                  "bgcolor_blue", "unknown6", "unknown7", "unknown8", "unknown9", "unknown10", "unknown11", "unknown12",
+                                  "unknown13", "unknown14", "buttonType"] ∧
+    namesOf CastLayouts.shape = ["unknown00", "shape_type", "top", "left", "bottom", "right", "unknown02", "pattern", "fgColor", "bgColor",
+                                 "filled", "line_width", "dir_val"] ∧
+    namesOf CastLayouts.text = ["h_padding", "w_padding", "txt_height", "txt_width", "top", "left", "bottom", "right", "antialias", "boxType",
+                                "unknown2", "anti_threshold"] ∧
+    namesOf CastLayouts.transition = ["smoothness", "transition", "stage_or_area", "duration"] ∧
+    namesOf CastLayouts.structD4 = ["header_size", "additional_size", "data_type"] ∧
+    namesOf CastLayouts.structD5 = ["data_type", "additional_size", "header_size"] ∧
+    namesOf CastLayouts.basicFixed = ["numbers_size", "script_key", "basic_data01", "basic_data02", "script_index"] := by decide
+
+/-- … and the model's reads outside the nine readers are `readFields` over exactly those kind lists
+    (the nine readers call `readFields <kinds> h 0` literally) -/
+theorem container_reads_are_kind_lists (d : Bytes) :
+    (readFields structD4Kinds d 0 =
+      (match getS .be 2 d 0 with
+       | .error e => .error e
+       | .ok hs => match getS .be 4 d 2 with
+         | .error e => .error e
+         | .ok asz => match byteAt d 6 with
+           | .error e => .error e
+           | .ok dt => .ok [hs, asz, (dt.toNat : Int)])) ∧
+    (readFields imageTailKinds d imageTailOff =
+      (match getS .be 2 d 23 with
+       | .error e => .error e
+       | .ok bitdepth => match getS .be 2 d 25 with
+         | .error e => .error e
+         | .ok pid => .ok [bitdepth, pid])) :=
+  ⟨structD4_reads d, imageTail_reads d⟩
+
 /-! ### non-vacuity: one concrete member per kind meets `valid` -/
 
 def exInfo : Info := ⟨0x98004729, 0, 0x1C, 1, [7, -1], [[0x6F, 0x6E], pascal [0x41, 0x2F, 0x8E, 0x2E, 0x62], [], [0xFF]]⟩
